@@ -575,6 +575,10 @@ def _sur_cases(rng, tier):
     presentations = [False, True, ["sesc"], ["pair", 2]]
     for cp in cps:
         presentations += [["ins", 0, cp], ["ins", 5, cp], ["ins", 1 << 20, cp], ["rep", 0, cp], ["rep", 7, cp]]
+    few = [False, True, ["sesc"], ["pair", 2], ["ins", 0, 0xD800], ["ins", 1 << 20, 0xDFFF], ["rep", 0, 0xDC00],
+           ["ins", 1, 0xD7FF], ["ins", 0, 0xE000]]
+    if tier != "thorough":      # quick: a third of the presentations (front / middle / end, both block edges, both neighbours)
+        presentations = few + [["ins", 5, 0xD800], ["rep", 7, 0xDFFF]]
     for b in bases:
         names = [b["name"], "\ud83d\ude00", b["name"] + "\ud83d\ude00"]
         for cp in cps:
@@ -592,8 +596,6 @@ def _sur_cases(rng, tier):
                    "muts": [["none"]], "max_age_days": 31, "now": 1700000005, "min_version": None, "fclock": False,
                    "str_value": False, "sur": True}
     raws = [b"", b"abc", b"a|1|c", b"|1|", b"2|", b"2|1:0|", b"2|1:0|1:5|1:n|4:dmFs|" + b"0" * 64, b"\xed\xa0\x80", b"\xff", b"2|\xff"]
-    few = [False, True, ["sesc"], ["pair", 2], ["ins", 0, 0xD800], ["ins", 1 << 20, 0xDFFF], ["rep", 0, 0xDC00],
-           ["ins", 1, 0xD7FF], ["ins", 0, 0xE000]]
     for raw in raws:
         for sec in (["s", "k"], ["d", [[0, "k"]]]):
             for dn in ("n", "n\ud800", "\udfff"):
